@@ -405,6 +405,21 @@ fn slot_name(s: Slot) -> &'static str {
 
 fn check_builder(steps: &[(Slot, u32)], cx: &mut Cx) -> Result<(), Failure> {
     let want = expected(steps);
+    if steps.is_empty() {
+        // every way of starting a builder gives the same defaults ("defaults for the rest")
+        let d = mock_env().block;
+        let blocks = [
+            ("AppBuilder::new()", AppBuilder::new().build(cw_multi_test::no_init).block_info()),
+            ("AppBuilder::default()", AppBuilder::default().build(cw_multi_test::no_init).block_info()),
+            ("BasicAppBuilder::new_custom()", cw_multi_test::BasicAppBuilder::<Empty, Empty>::new_custom().build(cw_multi_test::no_init).block_info()),
+            ("App::default()", App::default().block_info()),
+            ("App::new(..)", App::new(cw_multi_test::no_init).block_info()),
+            ("custom_app(..)", cw_multi_test::custom_app::<Empty, Empty, _>(cw_multi_test::no_init).block_info()),
+        ];
+        for (how, b) in blocks {
+            ensure!(b == d, "C20:builder-default-block", "{} starts with block {:?}, the other constructors with {:?}", how, b, d);
+        }
+    }
     let obs = match catch(|| go(AppBuilder::new(), steps)) {
         Ok(o) => o,
         Err(p) => fail!("C20:builder-panics", "building with steps {:?} panicked: {}", steps, p),
@@ -481,22 +496,49 @@ fn check_builder(steps: &[(Slot, u32)], cx: &mut Cx) -> Result<(), Failure> {
 
 macro_rules! perm_fns {
     ($($name:ident => $tag:expr),*) => {
-        $( fn $name(_d: DepsMut, _e: Env, _m: Empty) -> AnyResult<Response> { Ok(Response::new().add_attribute("fn", $tag)) } )*
+        $( fn $name(_d: DepsMut, _e: Env, _m: Empty) -> AnyResult<Response> { Ok(with_data(Response::new().add_attribute("fn", $tag), $tag)) } )*
     };
 }
 perm_fns!(sudo0 => "sudo-0", sudo1 => "sudo-1", sudo2 => "sudo-2", mig0 => "migrate-0", mig1 => "migrate-1", mig2 => "migrate-2");
 macro_rules! reply_fns {
     ($($name:ident => $tag:expr),*) => {
-        $( fn $name(_d: DepsMut, _e: Env, _m: Reply) -> AnyResult<Response> { Ok(Response::new().add_attribute("fn", $tag)) } )*
+        $( fn $name(_d: DepsMut, _e: Env, _m: Reply) -> AnyResult<Response> { Ok(with_data(Response::new().add_attribute("fn", $tag), $tag)) } )*
     };
 }
 reply_fns!(rep0 => "reply-0", rep1 => "reply-1", rep2 => "reply-2");
 
+/// the data an entry point returns is part of what the wrapper must hand through unchanged:
+/// present-but-empty for tags ending in 0 and for execute, bytes for tags ending in 1 and for
+/// instantiate, none otherwise
+fn expected_data(tag: &str) -> Option<Vec<u8>> {
+    match tag {
+        "execute" => Some(vec![]),
+        "instantiate" => Some(b"i".to_vec()),
+        t if t.ends_with('0') => Some(vec![]),
+        t if t.ends_with('1') => Some(b"d1".to_vec()),
+        _ => None,
+    }
+}
+fn with_data(r: Response, tag: &str) -> Response {
+    match expected_data(tag) {
+        Some(d) => r.set_data(d),
+        None => r,
+    }
+}
+fn data_intact(r: &AnyResult<Response>) -> bool {
+    match r {
+        Ok(resp) => match resp.attributes.iter().find(|a| a.key == "fn") {
+            Some(a) => resp.data.as_ref().map(|d| d.to_vec()) == expected_data(&a.value),
+            None => true,
+        },
+        Err(_) => true,
+    }
+}
 fn w_exec(_d: DepsMut, _e: Env, _i: MessageInfo, _m: Empty) -> AnyResult<Response> {
-    Ok(Response::new().add_attribute("fn", "execute"))
+    Ok(with_data(Response::new().add_attribute("fn", "execute"), "execute"))
 }
 fn w_inst(_d: DepsMut, _e: Env, _i: MessageInfo, _m: Empty) -> AnyResult<Response> {
-    Ok(Response::new().add_attribute("fn", "instantiate"))
+    Ok(with_data(Response::new().add_attribute("fn", "instantiate"), "instantiate"))
 }
 fn w_query(_d: Deps, _e: Env, _m: Empty) -> AnyResult<Binary> {
     Ok(to_json_binary("query")?)
@@ -557,19 +599,19 @@ fn check_wrapper(empty_ctor: bool, steps: &[WStep], cx: &mut Cx) -> Result<(), F
     let msg = b"{}".to_vec();
     let info = message_info(&Addr::unchecked("sender"), &[]);
     let mut deps = mock_dependencies();
-    let e = fn_tag(c.execute(deps.as_mut(), mock_env(), info.clone(), msg.clone()));
+    let e = { let r = c.execute(deps.as_mut(), mock_env(), info.clone(), msg.clone()); ensure!(data_intact(&r), "C20:wrapper-data-altered", "the execute entry point's response data was altered by the wrapper (steps {:?}): {:?}", steps, r.as_ref().ok().map(|x| x.data.clone())); fn_tag(r) };
     ensure!(e.as_deref() == Some("execute"), "C20:wrapper-entry-point:execute", "execute dispatches to {:?} after {:?}", e, steps);
-    let i = fn_tag(c.instantiate(deps.as_mut(), mock_env(), info, msg.clone()));
+    let i = { let r = c.instantiate(deps.as_mut(), mock_env(), info, msg.clone()); ensure!(data_intact(&r), "C20:wrapper-data-altered", "the instantiate entry point's response data was altered by the wrapper (steps {:?}): {:?}", steps, r.as_ref().ok().map(|x| x.data.clone())); fn_tag(r) };
     ensure!(i.as_deref() == Some("instantiate"), "C20:wrapper-entry-point:instantiate", "instantiate dispatches to {:?} after {:?}", i, steps);
     let q = c.query(deps.as_ref(), mock_env(), msg.clone()).ok();
     ensure!(q == Some(to_json_binary("query").unwrap()), "C20:wrapper-entry-point:query", "query answers {:?} after {:?}", q, steps);
-    let s = fn_tag(c.sudo(deps.as_mut(), mock_env(), msg.clone()));
+    let s = { let r = c.sudo(deps.as_mut(), mock_env(), msg.clone()); ensure!(data_intact(&r), "C20:wrapper-data-altered", "the sudo entry point's response data was altered by the wrapper (steps {:?}): {:?}", steps, r.as_ref().ok().map(|x| x.data.clone())); fn_tag(r) };
     ensure!(s == want_sudo, "C20:wrapper-entry-point:sudo", "sudo dispatches to {:?}, last supplied {:?} (steps {:?})", s, want_sudo, steps);
-    let m = fn_tag(c.migrate(deps.as_mut(), mock_env(), msg.clone()));
+    let m = { let r = c.migrate(deps.as_mut(), mock_env(), msg.clone()); ensure!(data_intact(&r), "C20:wrapper-data-altered", "the migrate entry point's response data was altered by the wrapper (steps {:?}): {:?}", steps, r.as_ref().ok().map(|x| x.data.clone())); fn_tag(r) };
     ensure!(m == want_mig, "C20:wrapper-entry-point:migrate", "migrate dispatches to {:?}, last supplied {:?} (steps {:?})", m, want_mig, steps);
     #[allow(deprecated)]
     let reply = Reply { id: 1, payload: Binary::default(), gas_used: 0, result: SubMsgResult::Ok(SubMsgResponse { events: vec![], data: None, msg_responses: vec![] }) };
-    let r = fn_tag(c.reply(deps.as_mut(), mock_env(), reply));
+    let r = { let r = c.reply(deps.as_mut(), mock_env(), reply); ensure!(data_intact(&r), "C20:wrapper-data-altered", "the reply entry point's response data was altered by the wrapper (steps {:?}): {:?}", steps, r.as_ref().ok().map(|x| x.data.clone())); fn_tag(r) };
     ensure!(r == want_reply, "C20:wrapper-entry-point:reply", "reply dispatches to {:?}, last supplied {:?} (steps {:?})", r, want_reply, steps);
     // the same through an App: the wrapper is stored next to other wrappers that carry the same
     // checksum but no optional entry points (one of them a duplicated code); every supplied entry point must still be reachable
